@@ -131,6 +131,7 @@ LIB_MODE_TEXT = {
     "bytes": "byte_copy/byte_copyr at every overlap, byte_chr/rchr, str_*/case_* on every string <=4 over {a,B,z,Z,@,[,`,{,NUL}, case folding of all 256 bytes",
     "num": "fmt_ulong/fmt_uint0/scan_ulong round trips on boundary values, scan_ulong/scan_8long on every digit string <=3 followed by every byte",
     "map": "constmap on all 256 subsets of 8 keys (empty key, case twins, colon data) x 17 probes, split on/off",
+    "date": "datetime_tai/datetime_untai/date822fmt/myctime against the calendar for two instants of every day 1970..2109, the last and the first second of every day and 19 edge instants (2^31, 2^32, 29 Feb 2000, 2100)",
     "cdb": "cdb_seek on a 9-record database (duplicate and high-byte keys): intact, one failing read at every call, every truncation; every two-key database whose keys (over {a..h}^1..4) share a hash table (same first slot, last slot, wrap-around) with a third absent key, and 256 crowded tables",
     "seek": "seek_set/seek_cur/seek_end/seek_trunc at offsets around 2^31 and 2^32 on a sparse file",
     "ctl": "control_readfile/readline/readint/rldef on every short file body, absent and unreadable files, with/without control/me",
@@ -141,7 +142,7 @@ def lib_conformance(res, rd, src, modes, tier, asan):
     """Library conformance (seq/c00_lib.c): the shared primitives this property's programs rest on, exhaustively over small domains
     against trivial references.  A boundary slip there shows only for inputs that hit the boundary (a read returning exactly
     buffer-size-1 bytes, the letter Z, a control file without a final newline), which program-level enumerations may not contain."""
-    extra = [w for w in ["cdb.a", "cdbmss.o", "cdbmake.a"] if w not in load_line(src, "qmail-send")]
+    extra = [w for w in ["cdb.a", "cdbmss.o", "cdbmake.a", "myctime.o"] if w not in load_line(src, "qmail-send")]
     exe = compile_harness(src, os.path.join(rd, "c00lib"), [os.path.join(VERIF, "seq/c00_lib.c")], link_target="qmail-send", extra_objs=extra, asan=asan)
     jobs = []
     for m in modes:
